@@ -586,3 +586,256 @@ fn c18_parse_precision() {
     kani::cover!(dot && k == 4);
     kani::cover!(dot && k == 1);
 }
+
+// @ob id=C20.k.canary props=C20 kind=canary
+// @clause vacuity guard
+// @fns FormatString::parse_literal_single
+#[kani::proof]
+#[kani::unwind(6)]
+#[kani::stub(core::str::slice_error_fail, slice_error_fail_plain)]
+fn c20_canary() {
+    let c1: char = kani::any();
+    let mut buf = [0u8; 9];
+    let text = two_chars_then_z(c1, 'x', 1, &mut buf);
+    let r = ManuallyDrop::new(FormatString::parse_literal_single(text));
+    assert!(r.is_ok());
+}
+
+// ---------------------------------------------------------------------------------------------
+// C18: grouping width
+
+static mut AMS_CALLS: u32 = 0;
+static mut AMS_INTER: i32 = 0;
+static mut AMS_SEP: char = ' ';
+static mut AMS_DIGITS: i32 = 0;
+static mut AMS_LEN: usize = 0;
+
+/// Recorder standing in for add_magnitude_separators_for_char (the String surgery itself).
+fn ams_recorder(magnitude_str: String, inter: i32, sep: char, disp_digit_cnt: i32) -> String {
+    unsafe {
+        AMS_CALLS += 1;
+        AMS_INTER = inter;
+        AMS_SEP = sep;
+        AMS_DIGITS = disp_digit_cnt;
+        AMS_LEN = magnitude_str.len();
+    }
+    magnitude_str
+}
+
+/// add_magnitude_separators for one concrete (magnitude, prefix) pair; everything about the spec
+/// stays symbolic.
+fn grouping_case(mag: &'static str, prefix: &'static str) {
+    let g = any_grouping();
+    let ft_k: u8 = kani::any();
+    kani::assume(ft_k < 5);
+    let ft = match ft_k {
+        0 => None,
+        1 => Some(FormatType::Decimal),
+        2 => Some(FormatType::Hex(any_case())),
+        3 => Some(FormatType::Binary),
+        _ => Some(FormatType::FixedPoint(any_case())),
+    };
+    let width: Option<usize> = kani::any();
+    if let Some(w) = width {
+        kani::assume(w <= 1000);
+    }
+    let fill_k: u8 = kani::any();
+    kani::assume(fill_k < 3);
+    let fill = match fill_k {
+        0 => None,
+        1 => Some('0'),
+        _ => Some('*'),
+    };
+    let align = any_align();
+    let spec = ManuallyDrop::new(FormatSpec {
+        conversion: None,
+        fill,
+        align,
+        sign: None,
+        alternate_form: kani::any(),
+        width,
+        grouping_option: g,
+        precision: None,
+        format_type: ft,
+    });
+    let mag_len = mag.len();
+    let plen = prefix.len();
+    unsafe {
+        AMS_CALLS = 0;
+    }
+    let out = ManuallyDrop::new(spec.add_magnitude_separators(String::from(mag), prefix));
+    assert!(out.len() == mag_len);
+    unsafe {
+        if spec.grouping_option.is_none() {
+            assert!(AMS_CALLS == 0);
+        } else {
+            assert!(AMS_CALLS == 1);
+            assert!(AMS_LEN == mag_len);
+            assert!(AMS_SEP == if spec.grouping_option == Some(FormatGrouping::Comma) { ',' } else { '_' });
+            assert!(AMS_INTER == if ft_k == 2 || ft_k == 3 { 4 } else { 3 });
+            let zero_padded = fill == Some('0') && align == Some(FormatAlign::AfterSign);
+            let expect = match width {
+                Some(w) if zero_padded && w as i32 - plen as i32 > mag_len as i32 => w as i32 - plen as i32,
+                _ => mag_len as i32,
+            };
+            assert!(AMS_DIGITS == expect);
+        }
+    }
+    kani::cover!(unsafe { AMS_CALLS == 1 && AMS_DIGITS > 4 });
+    kani::cover!(unsafe { AMS_CALLS == 1 } && width.is_some() && fill.is_none());
+}
+
+// @ob id=C18.k.grouping_digit_count props=C18 kind=complete tier=quick
+// @clause ',' and '_' grouping at the right interval with width-driven zero padding: the number of digit positions handed to the grouping step is the magnitude's own length, except for sign-aware zero padding (fill '0' with '=' alignment, which is what the 0 flag means), where it is max(width - len(sign and base prefix), length); the separator and interval are those of the spec; without a grouping option the magnitude is returned untouched (all widths <= 1000, fills, alignments, types; magnitude/prefix pairs "7"/"", "1234"/"", "1234"/"-", "1234"/"-0x", "12"/"0x" - the function only uses their lengths)
+// @fns FormatSpec::add_magnitude_separators FormatSpec::get_separator_interval
+#[kani::proof]
+#[kani::unwind(6)]
+#[kani::stub(FormatSpec::add_magnitude_separators_for_char, ams_recorder)]
+fn c18_grouping_digit_count() {
+    grouping_case("7", "");
+    grouping_case("1234", "");
+    grouping_case("1234", "-");
+    grouping_case("1234", "-0x");
+    grouping_case("12", "0x");
+}
+
+fn any_align() -> Option<FormatAlign> {
+    let k: u8 = kani::any();
+    kani::assume(k < 5);
+    match k {
+        0 => None,
+        1 => Some(FormatAlign::Left),
+        2 => Some(FormatAlign::Right),
+        3 => Some(FormatAlign::AfterSign),
+        _ => Some(FormatAlign::Center),
+    }
+}
+
+// ---------------------------------------------------------------------------------------------
+// C18: the integer driver hands sign + base prefix to grouping and to alignment
+
+static mut AM_CALLS: u32 = 0;
+static mut AM_PREFIX: [u8; 4] = [0; 4];
+static mut AM_PREFIX_LEN: usize = 0;
+
+fn am_recorder(_spec: &FormatSpec, magnitude_str: String, prefix: &str) -> String {
+    unsafe {
+        AM_CALLS += 1;
+        AM_PREFIX_LEN = prefix.len();
+        let b = prefix.as_bytes();
+        for i in 0..4 {
+            if i < b.len() {
+                AM_PREFIX[i] = b[i];
+            }
+        }
+    }
+    magnitude_str
+}
+
+static mut FSA2_SIGN: [u8; 4] = [0; 4];
+static mut FSA2_SIGN_LEN: usize = 0;
+static mut FSA2_CALLS: u32 = 0;
+static mut FSA2_DEFAULT_RIGHT: bool = false;
+
+fn fsa_sign_recorder<T>(_spec: &FormatSpec, _m: &T, sign_str: &str, default_align: FormatAlign) -> Result<String, FormatSpecError>
+where
+    T: CharLen + Deref<Target = str>,
+{
+    unsafe {
+        FSA2_CALLS += 1;
+        FSA2_SIGN_LEN = sign_str.len();
+        let b = sign_str.as_bytes();
+        for i in 0..4 {
+            if i < b.len() {
+                FSA2_SIGN[i] = b[i];
+            }
+        }
+        FSA2_DEFAULT_RIGHT = default_align == FormatAlign::Right;
+    }
+    Ok(String::new())
+}
+
+fn radix_stub(_spec: &FormatSpec, _magnitude: BigInt, _radix: u32) -> Result<String, FormatSpecError> {
+    Ok(String::from("ff"))
+}
+
+// @ob id=C18.k.format_int_prefix props=C18 kind=bounded tier=quick timeout=600
+// @bound the values 255 and -255; types b o x d and none; every sign option, alternate form and grouping; digit rendering (BigInt::to_str_radix, external) replaced by a constant
+// @clause zero padding after sign and base prefix: the integer driver hands the SAME text - sign ('-' for negative values, else '+', ' ' or nothing per the sign option) followed by the base prefix (0b 0o 0x only in alternate form) - both to the grouping step (which subtracts its length from the width) and to the alignment step (which puts it in front of the padding), with right default alignment
+// @fns FormatSpec::format_int FormatSpec::validate_format
+#[kani::proof]
+#[kani::unwind(8)]
+#[kani::stub(FormatSpec::format_int_radix, radix_stub)]
+#[kani::stub(FormatSpec::add_magnitude_separators, am_recorder)]
+#[kani::stub(FormatSpec::format_sign_and_align, fsa_sign_recorder)]
+fn c18_format_int_prefix() {
+    let negative: bool = kani::any();
+    let num = ManuallyDrop::new(if negative { BigInt::from(-255) } else { BigInt::from(255) });
+    let ft_k: u8 = kani::any();
+    kani::assume(ft_k < 5);
+    let (ft, base): (Option<FormatType>, &str) = match ft_k {
+        0 => (None, ""),
+        1 => (Some(FormatType::Decimal), ""),
+        2 => (Some(FormatType::Hex(Case::Lower)), "0x"),
+        3 => (Some(FormatType::Binary), "0b"),
+        _ => (Some(FormatType::Octal), "0o"),
+    };
+    let sign_k: u8 = kani::any();
+    kani::assume(sign_k < 4);
+    let sign = match sign_k {
+        0 => None,
+        1 => Some(FormatSign::Plus),
+        2 => Some(FormatSign::Minus),
+        _ => Some(FormatSign::MinusOrSpace),
+    };
+    let alt: bool = kani::any();
+    let g = any_grouping();
+    // ',' is not allowed with b o x (own obligation): keep specs that pass validation
+    kani::assume(!(g == Some(FormatGrouping::Comma) && ft_k >= 2));
+    let spec = ManuallyDrop::new(FormatSpec {
+        conversion: None,
+        fill: None,
+        align: None,
+        sign,
+        alternate_form: alt,
+        width: kani::any(),
+        grouping_option: g,
+        precision: None,
+        format_type: ft,
+    });
+    let r = ManuallyDrop::new(spec.format_int(&num));
+    assert!(r.is_ok());
+    let mut expect = [0u8; 4];
+    let mut n = 0;
+    if negative {
+        expect[0] = b'-';
+        n = 1;
+    } else if sign_k == 1 {
+        expect[0] = b'+';
+        n = 1;
+    } else if sign_k == 3 {
+        expect[0] = b' ';
+        n = 1;
+    }
+    if alt {
+        let bb = base.as_bytes();
+        for i in 0..2 {
+            if i < bb.len() {
+                expect[n] = bb[i];
+                n += 1;
+            }
+        }
+    }
+    unsafe {
+        assert!(AM_CALLS == 1 && FSA2_CALLS == 1);
+        assert!(AM_PREFIX_LEN == n && FSA2_SIGN_LEN == n);
+        for i in 0..3 {
+            if i < n {
+                assert!(AM_PREFIX[i] == expect[i] && FSA2_SIGN[i] == expect[i]);
+            }
+        }
+        assert!(FSA2_DEFAULT_RIGHT);
+    }
+    kani::cover!(n == 3);
+    kani::cover!(n == 0);
+}
